@@ -16,6 +16,7 @@ from aws_durable_execution_sdk_python.exceptions import (
 )
 from aws_durable_execution_sdk_python.lambda_service import (
     ErrorObject,
+    OperationStatus,
     OperationUpdate,
 )
 from aws_durable_execution_sdk_python.logger import Logger, LogInfo
@@ -152,8 +153,17 @@ class StepOperationExecutor(OperationExecutor[T]):
         ):
             return CheckResult.create_is_ready_to_execute(checkpointed_result)
 
-        # Create START checkpoint if not exists
-        if not checkpointed_result.is_existent():
+        # Create START checkpoint if not exists. A retry attempt of an AT_MOST_ONCE step (READY after
+        # its retry timer fired) must durably record its START as well, otherwise an interruption
+        # during the retry attempt is indistinguishable from "not yet attempted" and the attempt
+        # would be executed again on replay.
+        is_sync: bool = (
+            self.config.step_semantics is StepSemantics.AT_MOST_ONCE_PER_RETRY
+        )
+        is_ready_retry_attempt: bool = (
+            is_sync and checkpointed_result.status is OperationStatus.READY
+        )
+        if not checkpointed_result.is_existent() or is_ready_retry_attempt:
             start_operation: OperationUpdate = OperationUpdate.create_step_start(
                 identifier=self.operation_identifier,
             )
@@ -162,9 +172,6 @@ class StepOperationExecutor(OperationExecutor[T]):
             #   The step must not execute until the START checkpoint is persisted, ensuring exactly-once semantics.
             # - AtLeastOncePerRetry: Use non-blocking checkpoint (is_sync=False) for performance optimization.
             #   The step can execute immediately without waiting for checkpoint persistence, allowing at-least-once semantics.
-            is_sync: bool = (
-                self.config.step_semantics is StepSemantics.AT_MOST_ONCE_PER_RETRY
-            )
             self.state.create_checkpoint(
                 operation_update=start_operation, is_sync=is_sync
             )
